@@ -255,7 +255,8 @@ class MuSigTapScript(TapScript):
             big_endian_to_int(hash_keyaggcoef(self.commitment + b)) for b in xonlys
         ]
         # the second unique public key has a coefficient of 1
-        self.coefs[1] = 1
+        if len(xonlys) > 1:
+            self.coefs[1] = 1
         self.coef_lookup = {b: c for c, b in zip(self.coefs, xonlys)}
         # aggregate point
         self.point = S256Point.combine([c * p for c, p in zip(self.coefs, self.points)])
